@@ -103,6 +103,7 @@ PROPS = {
                       "write_http_response emits `connection: close` iff asked is not covered (format!-built head).",
         "verus": [],
         "kani": ["c20"],
+        "witness": "c20",
         "assumptions": [
             "the harnesses run on a scratch copy of the working tree with the harness module appended under cfg(kani)",
             "payload strings of the three payload-carrying variants range over 0..=2 arbitrary Unicode scalar values; the mapping code never reads them",
@@ -126,7 +127,7 @@ PROPS = {
                       "temp_file::TempFile, fixed_buffer::FixedBuf (from its source), io read/write_all; the temp file's on-disk content is the "
                       "writer's ghost `cur()`; async removed (D1/D2). Not covered: the small-body shortcut and 413 mapping in handle_http_conn_once "
                       "(generic handler closure), Request::recv_body, 'never holds more than S bytes in memory'.",
-        "verus": ["body"],
+        "verus": ["body", "conn"],
         "verus_thorough": ["copy"],
         "kani": [],
         "witness": "c09",
